@@ -30,6 +30,45 @@ def model_sorted(V, st, args, kwargs, node):
             reverse = True
         elif not z3.is_false(rz):
             raise Unsupported('sorted(reverse=<symbolic>)')
+    items = V.iter_items(seq, st, node)
+    if items is not None and len(items) <= 4:
+        # concrete length: an exact, quantifier-free model - stable bubble sort by compare-exchange on the keys
+        from .values import ite as _ite, simp as _simp
+        rev = False
+        if 'reverse' in kwargs:
+            rz = _simp(truthy_(kwargs['reverse']))
+            if z3.is_true(rz):
+                rev = True
+            elif not z3.is_false(rz):
+                raise Unsupported('sorted(reverse=<symbolic>)')
+
+        def kf(elem):
+            if key is None:
+                return elem
+            V.spec_mode += 1
+            try:
+                return apply(V, key, [elem], {}, st.fork(), node)
+            finally:
+                V.spec_mode -= 1
+        cur = list(items)
+        ok = True
+        for _pass in range(len(cur)):
+            for i in range(len(cur) - 1 - _pass):
+                a, b = cur[i], cur[i + 1]
+                try:
+                    swap = py_lt(kf(a), kf(b), True) if rev else py_lt(kf(b), kf(a), True)
+                except Unsupported:
+                    ok = False
+                    break
+                na, nb = _ite(swap, b, a), _ite(swap, a, b)
+                if na is None or nb is None:
+                    ok = False
+                    break
+                cur[i], cur[i + 1] = na, nb
+            if not ok:
+                break
+        if ok:
+            return MList(cur)
     t = type_of(seq)
     if t is None:
         return MList([])
